@@ -53,6 +53,12 @@ type SeenSleepCommand struct {
 	Key      SleepCommandKey
 	SeenAt   time.Time
 	SeenFrom identity.AgentID
+
+	// ValidUntil is the time until which a signed command with this key still
+	// passes the timestamp check (command timestamp + timestamp window). The
+	// entry must be remembered at least that long, otherwise a replay of the
+	// command would be accepted again. Zero when no signing key is configured.
+	ValidUntil time.Time
 }
 
 // FloodConfig contains configuration for the flood protocol.
@@ -847,18 +853,23 @@ func (f *Flooder) cleanupNodeInfoCache(now time.Time, expiry time.Duration) {
 // Must be called with f.sleepCmdMu held.
 func (f *Flooder) cleanupSleepCmdCache(now time.Time, expiry time.Duration) {
 	for key, entry := range f.sleepCmdSeenCache {
-		if now.Sub(entry.SeenAt) > expiry {
+		if now.Sub(entry.SeenAt) > expiry && !now.Before(entry.ValidUntil) {
 			delete(f.sleepCmdSeenCache, key)
 		}
 	}
 
-	// If still too large, remove oldest entries
+	// If still too large, remove entries until under limit. Entries of signed
+	// commands that could still be replayed are kept: they only get here after
+	// signature verification, so peers cannot inflate their number.
 	excess := len(f.sleepCmdSeenCache) - f.cfg.MaxSeenCacheSize
 	if excess <= 0 {
 		return
 	}
 	removed := 0
-	for key := range f.sleepCmdSeenCache {
+	for key, entry := range f.sleepCmdSeenCache {
+		if now.Before(entry.ValidUntil) {
+			continue
+		}
 		delete(f.sleepCmdSeenCache, key)
 		removed++
 		if removed >= excess {
@@ -1160,7 +1171,7 @@ func (f *Flooder) NodeInfoSeenCacheSize() int {
 
 // markSleepCmdSeen checks if a sleep/wake command has been seen and marks it as seen.
 // Returns true if this is a new command.
-func (f *Flooder) markSleepCmdSeen(originAgent identity.AgentID, commandID uint64, fromPeer identity.AgentID) bool {
+func (f *Flooder) markSleepCmdSeen(originAgent identity.AgentID, commandID uint64, timestamp uint64, fromPeer identity.AgentID) bool {
 	key := SleepCommandKey{
 		OriginAgent: originAgent,
 		CommandID:   commandID,
@@ -1176,32 +1187,38 @@ func (f *Flooder) markSleepCmdSeen(originAgent identity.AgentID, commandID uint6
 		return false
 	}
 
-	f.sleepCmdSeenCache[key] = &SeenSleepCommand{
+	entry := &SeenSleepCommand{
 		Key:      key,
 		SeenAt:   time.Now(),
 		SeenFrom: fromPeer,
 	}
+	if f.signingPubKey != nil {
+		entry.ValidUntil = time.Unix(int64(timestamp), 0).Add(f.timestampWindow)
+	}
+	f.sleepCmdSeenCache[key] = entry
 	return true
 }
 
 // HandleSleepCommand processes an incoming SLEEP_COMMAND frame.
 // Returns true if the command was new and should be processed.
 func (f *Flooder) HandleSleepCommand(fromPeer identity.AgentID, cmd *protocol.SleepCommand) bool {
-	if !f.markSleepCmdSeen(cmd.OriginAgent, cmd.CommandID, fromPeer) {
-		return false
-	}
-
-	if containsAgent(cmd.SeenBy, f.localID) {
-		return false
-	}
-
-	// Verify signature if signing key is configured
+	// Verify signature if signing key is configured. This happens before the
+	// command is remembered as seen, so that forged commands can neither fill
+	// the seen cache nor block a genuine command that uses the same ID.
 	if err := f.verifySleepCommand(cmd); err != nil {
 		f.logger.Warn("sleep command rejected",
 			"origin", cmd.OriginAgent.ShortString(),
 			"command_id", cmd.CommandID,
 			"from_peer", fromPeer.ShortString(),
 			logging.KeyError, err)
+		return false
+	}
+
+	if !f.markSleepCmdSeen(cmd.OriginAgent, cmd.CommandID, cmd.Timestamp, fromPeer) {
+		return false
+	}
+
+	if containsAgent(cmd.SeenBy, f.localID) {
 		return false
 	}
 
@@ -1220,21 +1237,23 @@ func (f *Flooder) HandleSleepCommand(fromPeer identity.AgentID, cmd *protocol.Sl
 // HandleWakeCommand processes an incoming WAKE_COMMAND frame.
 // Returns true if the command was new and should be processed.
 func (f *Flooder) HandleWakeCommand(fromPeer identity.AgentID, cmd *protocol.WakeCommand) bool {
-	if !f.markSleepCmdSeen(cmd.OriginAgent, cmd.CommandID, fromPeer) {
-		return false
-	}
-
-	if containsAgent(cmd.SeenBy, f.localID) {
-		return false
-	}
-
-	// Verify signature if signing key is configured
+	// Verify signature if signing key is configured. This happens before the
+	// command is remembered as seen, so that forged commands can neither fill
+	// the seen cache nor block a genuine command that uses the same ID.
 	if err := f.verifyWakeCommand(cmd); err != nil {
 		f.logger.Warn("wake command rejected",
 			"origin", cmd.OriginAgent.ShortString(),
 			"command_id", cmd.CommandID,
 			"from_peer", fromPeer.ShortString(),
 			logging.KeyError, err)
+		return false
+	}
+
+	if !f.markSleepCmdSeen(cmd.OriginAgent, cmd.CommandID, cmd.Timestamp, fromPeer) {
+		return false
+	}
+
+	if containsAgent(cmd.SeenBy, f.localID) {
 		return false
 	}
 
@@ -1323,7 +1342,7 @@ func (f *Flooder) verifyWakeCommand(cmd *protocol.WakeCommand) error {
 // This is used to initiate mesh-wide sleep from this agent.
 // The command should already be signed if signing is required.
 func (f *Flooder) FloodSleepCommand(cmd *protocol.SleepCommand) error {
-	f.markSleepCmdSeen(cmd.OriginAgent, cmd.CommandID, f.localID)
+	f.markSleepCmdSeen(cmd.OriginAgent, cmd.CommandID, cmd.Timestamp, f.localID)
 
 	cmdWithSeen := &protocol.SleepCommand{
 		OriginAgent: cmd.OriginAgent,
@@ -1347,7 +1366,7 @@ func (f *Flooder) FloodSleepCommand(cmd *protocol.SleepCommand) error {
 // This is used to initiate mesh-wide wake from this agent.
 // The command should already be signed if signing is required.
 func (f *Flooder) FloodWakeCommand(cmd *protocol.WakeCommand) error {
-	f.markSleepCmdSeen(cmd.OriginAgent, cmd.CommandID, f.localID)
+	f.markSleepCmdSeen(cmd.OriginAgent, cmd.CommandID, cmd.Timestamp, f.localID)
 
 	// Store pending wake command for forwarding to new peers
 	f.storePendingWake(cmd)
